@@ -371,6 +371,36 @@ func runC15(c *Ctx) {
 			}
 		})
 		c.check(good, "handler-appends-respopt", h.Pos(), "the handler appends RespOpt() only when non-nil", "the server handler does not append the response OPT exactly when there is one")
+		// every reply that is packed passed the RespOpt decision
+		pk := h.Params[len(h.Params)-1]
+		var respOptCall ssa.Instruction
+		eachInstr(h, func(in ssa.Instruction) {
+			if ci, ok := in.(*ssa.Call); ok && callName(ci) == "(*"+relQctx+".Context).RespOpt" {
+				respOptCall = in
+			}
+		})
+		all := respOptCall != nil
+		nPack := 0
+		eachInstrDeep(h, func(f *ssa.Function, in ssa.Instruction) {
+			ci, ok := in.(ssa.CallInstruction)
+			if !ok {
+				return
+			}
+			if callName(ci) == "dynamic" && isParamValue(p, ci.Common().Value, pk) {
+				nPack++
+				if f != h || respOptCall == nil || !instrDominates(respOptCall, in) {
+					all = false
+				}
+				return
+			}
+			for _, a := range ci.Common().Args {
+				if isParamValue(p, a, pk) {
+					all = false // handed to a helper that packs on its own
+				}
+			}
+		})
+		c.check(all && nPack > 0, "every-reply-passes-respopt", h.Pos(), "every packed reply passed the response-OPT decision",
+			"some reply (e.g. the SERVFAIL built on the error path) is packed without passing the response-OPT step: an EDNS client gets a reply without OPT")
 	}
 
 	// ---------------------------------------------------------------- R6
